@@ -96,6 +96,16 @@ def cases(tier, rng):
     m.grps = [R.Grp(bytes([97 + i] * i), i % 3, (i * 5) % 4) for i in range(12)]
     b = m.encode()
     yield Case(f"map.rt {hexs(b)}", expect=rt_expect(m, len(b)), tag="rt-many-tables")
+    # 3b. tile groups whose area wraps in 32 bits (the reader sizes the index table with the wrapped product: such byte
+    #     strings are accepted, so the writer must reproduce them) and height-0 maps of every width
+    for dims in ([(0x80000001, 2)], [(0x10000, 0x10000)], [(0xFFFFFFFF, 0xFFFFFFFF)], [(0x40000001, 4), (2, 1)], [(3, 0x55555556)]):
+        m = R.MapV(rng.randrange(0, 4), 1); m.tiles = [rng.randrange(1 << 32) for _ in range(1 << m.lg)]
+        m.grps = [R.Grp(R.rnd_bytes(rng, rng.choice([0, 3])), w, h, [rng.randrange(1 << 32) for _ in range((w * h) & 0xFFFFFFFF)]) for w, h in dims]
+        b = m.encode()
+        yield Case(f"map.rt {hexs(b)}", expect=rt_expect(m, len(b)), tag="rt-group-area-wraps")
+    for lg in range(0, 11):
+        m = R.MapV(lg, 0); b = m.encode()
+        yield Case(f"map.rt {hexs(b)}", expect=rt_expect(m, len(b)), tag="rt-height-zero")
     # 4. the library's own default map is writable and reads back (clip rectangle: C18)
     yield Case("map.default", nomodel=True, tag="default-map",
                check=lambda o: None if (" w=1 h=0 tc=0 " in o and o.startswith("out=")) else f"default map does not round trip: {o[:120]}")
